@@ -926,3 +926,239 @@ Proof.
     apply (Npre a' b' q E Hb).
   - exact Npost.
 Qed.
+
+(* ====================================================================== *)
+(* both halves: the value is replaced exactly, and masking the result again changes nothing *)
+(* ====================================================================== *)
+Lemma whole_bare k K d w1 w2 v mask pre post :
+  In k gen_keys ->
+  casing_of k K ->
+  forallb ascii_digit d = true ->
+  forallb is_space w1 = true ->
+  forallb is_space w2 = true ->
+  forallb bare_char v = true ->
+  (1 <= length v)%nat ->
+  forallb bare_char mask = true ->
+  (1 <= length mask)%nat ->
+  forallb ctx_char pre = true ->
+  forallb ctx_char post = true ->
+  hd_notin cs_bare post = true ->
+  only_at gen_ci_table k (msg_bare pre K d w1 w2 v post) [length pre] = true ->
+  only_at gen_ci_table k (msg_bare pre K d w1 w2 mask post) [length pre] = true ->
+  others_absent k (msg_bare pre K d w1 w2 v post) = true ->
+  others_absent k (msg_bare pre K d w1 w2 mask post) = true ->
+  mask_password (msg_bare pre K d w1 w2 v post) mask = msg_bare pre K d w1 w2 mask post /\ mask_password (msg_bare pre K d w1 w2 mask post) mask = msg_bare pre K d w1 w2 mask post.
+Proof.
+  intros H0 H1 H2 H3 H4 H5 H6 H7 H8 H9 H10 H11 H12 H13 H14 H15. split.
+  - exact (whole_bare_step k K d w1 w2 v mask pre post H0 H1 H2 H3 H4 H5 H6 H7 H8 H9 H10 H11 H12 H13 H14 H15).
+  - exact (whole_bare_step k K d w1 w2 mask mask pre post H0 H1 H2 H3 H4 H7 H8 H7 H8 H9 H10 H11 H13 H13 H15 H15).
+Qed.
+
+Lemma whole_kq k K d w1 q1 q2 v mask pre post :
+  In k gen_keys ->
+  casing_of k K ->
+  forallb ascii_digit d = true ->
+  forallb is_space w1 = true ->
+  (1 <= length w1)%nat ->
+  is_quote q1 = true ->
+  is_quote q2 = true ->
+  forallb quoted_char v = true ->
+  forallb quoted_char mask = true ->
+  forallb ctx_char pre = true ->
+  forallb ctx_char post = true ->
+  only_at gen_ci_table k (msg_kq pre K d w1 q1 v q2 post) [length pre] = true ->
+  only_at gen_ci_table k (msg_kq pre K d w1 q1 mask q2 post) [length pre] = true ->
+  others_absent k (msg_kq pre K d w1 q1 v q2 post) = true ->
+  others_absent k (msg_kq pre K d w1 q1 mask q2 post) = true ->
+  mask_password (msg_kq pre K d w1 q1 v q2 post) mask = msg_kq pre K d w1 q1 mask q2 post /\ mask_password (msg_kq pre K d w1 q1 mask q2 post) mask = msg_kq pre K d w1 q1 mask q2 post.
+Proof.
+  intros H0 H1 H2 H3 H4 H5 H6 H7 H8 H9 H10 H11 H12 H13 H14. split.
+  - exact (whole_kq_step k K d w1 q1 q2 v mask pre post H0 H1 H2 H3 H4 H5 H6 H7 H8 H9 H10 H11 H12 H13 H14).
+  - exact (whole_kq_step k K d w1 q1 q2 mask mask pre post H0 H1 H2 H3 H4 H5 H6 H8 H8 H9 H10 H12 H12 H14 H14).
+Qed.
+
+Lemma whole_xml k K d K' d' v mask pre post :
+  In k gen_keys ->
+  casing_of k K ->
+  forallb ascii_digit d = true ->
+  casing_of k K' ->
+  forallb ascii_digit d' = true ->
+  forallb xml_char v = true ->
+  forallb xml_char mask = true ->
+  forallb ctx_char pre = true ->
+  forallb ctx_char post = true ->
+  only_at gen_ci_table k (msg_xml pre K d v K' d' post) (xml_offsets pre K d v) = true ->
+  only_at gen_ci_table k (msg_xml pre K d mask K' d' post) (xml_offsets pre K d mask) = true ->
+  others_absent k (msg_xml pre K d v K' d' post) = true ->
+  others_absent k (msg_xml pre K d mask K' d' post) = true ->
+  mask_password (msg_xml pre K d v K' d' post) mask = msg_xml pre K d mask K' d' post /\ mask_password (msg_xml pre K d mask K' d' post) mask = msg_xml pre K d mask K' d' post.
+Proof.
+  intros H0 H1 H2 H3 H4 H5 H6 H7 H8 H9 H10 H11 H12. split.
+  - exact (whole_xml_step k K d K' d' v mask pre post H0 H1 H2 H3 H4 H5 H6 H7 H8 H9 H10 H11 H12).
+  - exact (whole_xml_step k K d K' d' mask mask pre post H0 H1 H2 H3 H4 H6 H6 H7 H8 H10 H10 H12 H12).
+Qed.
+
+Lemma whole_cmd2 k K d w1 dash fl w2 w3 v mask pre post :
+  In k gen_keys ->
+  casing_of k K ->
+  forallb ascii_digit d = true ->
+  forallb is_space w1 = true ->
+  (dash = [] \/ dash = [45]) ->
+  all_in cs_flag fl = true ->
+  (1 <= length fl)%nat ->
+  forallb is_space w2 = true ->
+  (1 <= length w2)%nat ->
+  forallb is_space w3 = true ->
+  forallb nonspace_char v = true ->
+  (1 <= length v)%nat ->
+  forallb nonspace_char mask = true ->
+  (1 <= length mask)%nat ->
+  forallb ctx_char pre = true ->
+  forallb ctx_char post = true ->
+  hd_notin cs_nonspace (w3 ++ post) = true ->
+  hd_notin py_space post = true ->
+  only_at gen_ci_table k (msg_cmd2 pre K d w1 dash fl w2 v w3 post) [length pre] = true ->
+  only_at gen_ci_table k (msg_cmd2 pre K d w1 dash fl w2 mask w3 post) [length pre] = true ->
+  others_absent k (msg_cmd2 pre K d w1 dash fl w2 v w3 post) = true ->
+  others_absent k (msg_cmd2 pre K d w1 dash fl w2 mask w3 post) = true ->
+  mask_password (msg_cmd2 pre K d w1 dash fl w2 v w3 post) mask = msg_cmd2 pre K d w1 dash fl w2 mask w3 post /\ mask_password (msg_cmd2 pre K d w1 dash fl w2 mask w3 post) mask = msg_cmd2 pre K d w1 dash fl w2 mask w3 post.
+Proof.
+  intros H0 H1 H2 H3 H4 H5 H6 H7 H8 H9 H10 H11 H12 H13 H14 H15 H16 H17 H18 H19 H20 H21. split.
+  - exact (whole_cmd2_step k K d w1 dash fl w2 w3 v mask pre post H0 H1 H2 H3 H4 H5 H6 H7 H8 H9 H10 H11 H12 H13 H14 H15 H16 H17 H18 H19 H20 H21).
+  - exact (whole_cmd2_step k K d w1 dash fl w2 w3 mask mask pre post H0 H1 H2 H3 H4 H5 H6 H7 H8 H9 H12 H13 H12 H13 H14 H15 H16 H17 H19 H19 H21 H21).
+Qed.
+
+Lemma whole_dd k K d w1 w2 v mask pre post :
+  In k gen_keys ->
+  casing_of k K ->
+  forallb ascii_digit d = true ->
+  forallb is_space w1 = true ->
+  (1 <= length w1)%nat ->
+  forallb is_space w2 = true ->
+  forallb dd_char v = true ->
+  (1 <= length v)%nat ->
+  hd_notin [(45, 45)] v = true ->
+  forallb dd_char mask = true ->
+  (1 <= length mask)%nat ->
+  hd_notin [(45, 45)] mask = true ->
+  forallb ctx_char pre = true ->
+  forallb ctx_char post = true ->
+  hd_notin cs_dd (w2 ++ post) = true ->
+  hd_notin py_space post = true ->
+  only_at gen_ci_table k (msg_dd pre K d w1 v w2 post) [(length pre + 2)%nat] = true ->
+  only_at gen_ci_table k (msg_dd pre K d w1 mask w2 post) [(length pre + 2)%nat] = true ->
+  others_absent k (msg_dd pre K d w1 v w2 post) = true ->
+  others_absent k (msg_dd pre K d w1 mask w2 post) = true ->
+  mask_password (msg_dd pre K d w1 v w2 post) mask = msg_dd pre K d w1 mask w2 post /\ mask_password (msg_dd pre K d w1 mask w2 post) mask = msg_dd pre K d w1 mask w2 post.
+Proof.
+  intros H0 H1 H2 H3 H4 H5 H6 H7 H8 H9 H10 H11 H12 H13 H14 H15 H16 H17 H18 H19. split.
+  - exact (whole_dd_step k K d w1 w2 v mask pre post H0 H1 H2 H3 H4 H5 H6 H7 H8 H9 H10 H11 H12 H13 H14 H15 H16 H17 H18 H19).
+  - exact (whole_dd_step k K d w1 w2 mask mask pre post H0 H1 H2 H3 H4 H5 H9 H10 H11 H9 H10 H11 H12 H13 H14 H15 H17 H17 H19 H19).
+Qed.
+
+Lemma whole_jp k K d q1 pfx q2 w1 w2 u q3 q4 v mask pre post :
+  In k gen_keys ->
+  casing_of k K ->
+  forallb ascii_digit d = true ->
+  is_quote q1 = true ->
+  is_quote q2 = true ->
+  is_quote q3 = true ->
+  is_quote q4 = true ->
+  forallb quoted_char pfx = true ->
+  (1 <= length pfx)%nat ->
+  forallb is_space w1 = true ->
+  forallb is_space w2 = true ->
+  opt_u u ->
+  forallb quoted_char v = true ->
+  forallb quoted_char mask = true ->
+  forallb ctx_char pre = true ->
+  forallb ctx_char post = true ->
+  only_at gen_ci_table k (msg_jp pre q1 pfx K d q2 w1 w2 u q3 v q4 post) [(length pre + 1 + length pfx)%nat] = true ->
+  only_at gen_ci_table k (msg_jp pre q1 pfx K d q2 w1 w2 u q3 mask q4 post) [(length pre + 1 + length pfx)%nat] = true ->
+  others_absent k (msg_jp pre q1 pfx K d q2 w1 w2 u q3 v q4 post) = true ->
+  others_absent k (msg_jp pre q1 pfx K d q2 w1 w2 u q3 mask q4 post) = true ->
+  mask_password (msg_jp pre q1 pfx K d q2 w1 w2 u q3 v q4 post) mask = msg_jp pre q1 pfx K d q2 w1 w2 u q3 mask q4 post /\ mask_password (msg_jp pre q1 pfx K d q2 w1 w2 u q3 mask q4 post) mask = msg_jp pre q1 pfx K d q2 w1 w2 u q3 mask q4 post.
+Proof.
+  intros H0 H1 H2 H3 H4 H5 H6 H7 H8 H9 H10 H11 H12 H13 H14 H15 H16 H17 H18 H19. split.
+  - exact (whole_jp_step k K d q1 pfx q2 w1 w2 u q3 q4 v mask pre post H0 H1 H2 H3 H4 H5 H6 H7 H8 H9 H10 H11 H12 H13 H14 H15 H16 H17 H18 H19).
+  - exact (whole_jp_step k K d q1 pfx q2 w1 w2 u q3 q4 mask mask pre post H0 H1 H2 H3 H4 H5 H6 H7 H8 H9 H10 H11 H13 H13 H14 H15 H17 H17 H19 H19).
+Qed.
+
+Lemma whole_eq k K d w1 w2 q v mask pre post :
+  In k gen_keys ->
+  casing_of k K ->
+  forallb ascii_digit d = true ->
+  forallb is_space w1 = true ->
+  forallb is_space w2 = true ->
+  (q = 34 \/ q = 39) ->
+  forallb quoted_char v = true ->
+  forallb quoted_char mask = true ->
+  forallb ctx_char pre = true ->
+  forallb ctx_char post = true ->
+  only_at gen_ci_table k (msg_eq pre K d w1 w2 q v post) [length pre] = true ->
+  only_at gen_ci_table k (msg_eq pre K d w1 w2 q mask post) [length pre] = true ->
+  others_absent k (msg_eq pre K d w1 w2 q v post) = true ->
+  others_absent k (msg_eq pre K d w1 w2 q mask post) = true ->
+  mask_password (msg_eq pre K d w1 w2 q v post) mask = msg_eq pre K d w1 w2 q mask post /\ mask_password (msg_eq pre K d w1 w2 q mask post) mask = msg_eq pre K d w1 w2 q mask post.
+Proof.
+  intros H0 H1 H2 H3 H4 H5 H6 H7 H8 H9 H10 H11 H12 H13. split.
+  - exact (whole_eq_step k K d w1 w2 q v mask pre post H0 H1 H2 H3 H4 H5 H6 H7 H8 H9 H10 H11 H12 H13).
+  - exact (whole_eq_step k K d w1 w2 q mask mask pre post H0 H1 H2 H3 H4 H5 H7 H7 H8 H9 H11 H11 H13 H13).
+Qed.
+
+Lemma whole_json k K d q1 q2 w1 w2 q3 q4 v mask pre post :
+  In k gen_keys ->
+  casing_of k K ->
+  forallb ascii_digit d = true ->
+  is_quote q1 = true ->
+  is_quote q2 = true ->
+  is_quote q3 = true ->
+  is_quote q4 = true ->
+  forallb is_space w1 = true ->
+  forallb is_space w2 = true ->
+  forallb quoted_char v = true ->
+  forallb quoted_char mask = true ->
+  forallb ctx_char pre = true ->
+  forallb ctx_char post = true ->
+  only_at gen_ci_table k (msg_json pre q1 K d q2 w1 w2 q3 v q4 post) [(length pre + 1)%nat] = true ->
+  only_at gen_ci_table k (msg_json pre q1 K d q2 w1 w2 q3 mask q4 post) [(length pre + 1)%nat] = true ->
+  others_absent k (msg_json pre q1 K d q2 w1 w2 q3 v q4 post) = true ->
+  others_absent k (msg_json pre q1 K d q2 w1 w2 q3 mask q4 post) = true ->
+  mask_password (msg_json pre q1 K d q2 w1 w2 q3 v q4 post) mask = msg_json pre q1 K d q2 w1 w2 q3 mask q4 post /\ mask_password (msg_json pre q1 K d q2 w1 w2 q3 mask q4 post) mask = msg_json pre q1 K d q2 w1 w2 q3 mask q4 post.
+Proof.
+  intros H0 H1 H2 H3 H4 H5 H6 H7 H8 H9 H10 H11 H12 H13 H14 H15 H16. split.
+  - exact (whole_json_step k K d q1 q2 w1 w2 q3 q4 v mask pre post H0 H1 H2 H3 H4 H5 H6 H7 H8 H9 H10 H11 H12 H13 H14 H15 H16).
+  - exact (whole_json_step k K d q1 q2 w1 w2 q3 q4 mask mask pre post H0 H1 H2 H3 H4 H5 H6 H7 H8 H10 H10 H11 H12 H14 H14 H16 H16).
+Qed.
+
+Lemma whole_cmd1 k K d q1 pfx q2 w1 w2 dash fl w3 w4 u q3 q4 v mask pre post :
+  In k gen_keys ->
+  casing_of k K ->
+  forallb ascii_digit d = true ->
+  is_quote q1 = true ->
+  is_quote q2 = true ->
+  is_quote q3 = true ->
+  is_quote q4 = true ->
+  forallb quoted_char pfx = true ->
+  forallb is_space w1 = true ->
+  forallb is_space w2 = true ->
+  (dash = [] \/ dash = [45]) ->
+  all_in cs_flag fl = true ->
+  (1 <= length fl)%nat ->
+  forallb is_space w3 = true ->
+  forallb is_space w4 = true ->
+  opt_u u ->
+  forallb quoted_char v = true ->
+  forallb quoted_char mask = true ->
+  forallb ctx_char pre = true ->
+  forallb ctx_char post = true ->
+  only_at gen_ci_table k (msg_cmd1 pre q1 pfx K d q2 w1 w2 dash fl w3 w4 u q3 v q4 post) [(length pre + 1 + length pfx)%nat] = true ->
+  only_at gen_ci_table k (msg_cmd1 pre q1 pfx K d q2 w1 w2 dash fl w3 w4 u q3 mask q4 post) [(length pre + 1 + length pfx)%nat] = true ->
+  others_absent k (msg_cmd1 pre q1 pfx K d q2 w1 w2 dash fl w3 w4 u q3 v q4 post) = true ->
+  others_absent k (msg_cmd1 pre q1 pfx K d q2 w1 w2 dash fl w3 w4 u q3 mask q4 post) = true ->
+  mask_password (msg_cmd1 pre q1 pfx K d q2 w1 w2 dash fl w3 w4 u q3 v q4 post) mask = msg_cmd1 pre q1 pfx K d q2 w1 w2 dash fl w3 w4 u q3 mask q4 post /\ mask_password (msg_cmd1 pre q1 pfx K d q2 w1 w2 dash fl w3 w4 u q3 mask q4 post) mask = msg_cmd1 pre q1 pfx K d q2 w1 w2 dash fl w3 w4 u q3 mask q4 post.
+Proof.
+  intros H0 H1 H2 H3 H4 H5 H6 H7 H8 H9 H10 H11 H12 H13 H14 H15 H16 H17 H18 H19 H20 H21 H22 H23. split.
+  - exact (whole_cmd1_step k K d q1 pfx q2 w1 w2 dash fl w3 w4 u q3 q4 v mask pre post H0 H1 H2 H3 H4 H5 H6 H7 H8 H9 H10 H11 H12 H13 H14 H15 H16 H17 H18 H19 H20 H21 H22 H23).
+  - exact (whole_cmd1_step k K d q1 pfx q2 w1 w2 dash fl w3 w4 u q3 q4 mask mask pre post H0 H1 H2 H3 H4 H5 H6 H7 H8 H9 H10 H11 H12 H13 H14 H15 H17 H17 H18 H19 H21 H21 H23 H23).
+Qed.
